@@ -121,7 +121,7 @@ Not decided: that nom delivers the components it saw (run-time parser semantics)
     borrow(ctx, "C09", "C09.splice", "C05.splice", &mut |sub| crate::rules::c09::run(m, sub));
     // the first-extension index is a *position*: whatever reorders, filters or duplicates the component list after the index
     // was taken moves components across the marker (the adaptor whitelist lives with C02.order)
-    borrow(ctx, "C02", "C02.order", "C05.reorder", &mut |sub| crate::rules::c02::run(m, sub));
+    borrow(ctx, "C02", "C02.order", "C05.reorder", &mut |sub| crate::rules::c02::order(m, sub));
     member_annotations(m, ctx, "C05.member", "extension");
     let consts = const_resolver(m);
     let ev = Evaluator { consts: &consts, call_hook: &crate::eval::no_hook, inline: None };
